@@ -2463,3 +2463,35 @@ def p_route( ctx ):
     else:
         res.bad( src, checks[0], 'response checks: %s' % [ norm_text( a.test ) for a in checks ], 'a missing response (time-out) and a non-zero encapsulation status must both fail the routed request' )
     return res
+
+
+# ---------------------------------------------------------------------------------------- C06: E-REPLY (a complete frame that cannot be interpreted still gets one reply)
+
+@rule( 'E-REPLY', props=( 'C06', ), floor=1 )
+def e_reply( ctx ):
+    """logix.process: the interpretation of a completely received frame (the CIP-level parse of its command and payload) fails into a reply
+    with a non-zero encapsulation status - it lies inside a try whose handler stores data.response.enip.status != 0 and returns a truthy
+    result instead of re-raising (re-raising makes the connection handler drop the session without any reply)"""
+    res = Result( 'E-REPLY' )
+    src = ctx.src( LOGIX )
+    fn = src.get( 'process' )
+    runs = [ c for c in ast.walk( fn ) if isinstance( c, ast.Call ) and isinstance( c.func, ast.Attribute ) and c.func.attr == 'run' and any( k.arg == 'source' for k in c.keywords ) ]
+    if len( runs ) != 1:
+        raise AnalysisError( 'process: the CIP-level parse ( <machine>.run( source=... )) not found' )
+    run = runs[0]
+    tries = [ a for a in src.ancestors( run ) if isinstance( a, ast.Try ) and any( run is x for b in a.body for x in ast.walk( b )) ]
+    conv = None
+    for t in tries:
+        for h in t.handlers:
+            catches = h.type is None or dotted( h.type ) in ( 'Exception', 'BaseException' )
+            stores = [ s for s in ast.walk( h ) if isinstance( s, ast.Assign ) and any(( txt( x ).endswith( 'enip.status' ) or txt( x ).endswith( "['enip.status']" )) for x in s.targets )
+                       and try_fold( s.value ) not in ( 0, None ) ]
+            if catches and stores and not any( isinstance( x, ast.Raise ) for x in ast.walk( h )):
+                conv = t
+    if conv is not None:
+        res.ok( src, conv, 'a frame whose command / payload cannot be parsed is answered with a non-zero encapsulation status' )
+    else:
+        h = tries[0].handlers[0] if tries and tries[0].handlers else fn
+        res.bad( src, h, 'process: failure of the CIP-level parse of a complete frame is re-raised',
+                 'a complete, well-formed encapsulation frame carrying an unsupported command (or a payload the CIP parser rejects) is not answered at all: the exception propagates, the connection handler drops the session, and the client waits for a reply that never comes', func='process' )
+    return res
